@@ -16,6 +16,11 @@ def na(pid, reason):
     NA[pid] = reason
 
 
+def also(pid, text):
+    """Further decided clauses, appended to the claim text (rules added after later seeded-change rounds)."""
+    CLAIMS[pid]['text'] = CLAIMS[pid]['text'] + ' Also decided: ' + text
+
+
 exec(open(os.path.join(HERE, 'manifest_claims.py')).read())
 
 checks = []
